@@ -190,6 +190,37 @@ func c01Exhaustive(full bool) []string {
 	return out
 }
 
+// c01Alt: bounded-exhaustive destructuring alternatives: every ordered pair (and sampled triples) of pattern shapes
+// over three variables, with a plain body and a body that fails while a variable is still null, inside a loop over
+// heterogeneous data (stale-register defects only show when the same code is re-entered with different data).
+func c01Alt(full bool) []string {
+	pats := []string{"$a", "[$a]", "[$a, $b]", "{$a}", "{$a, b: [$c]}", "{a: $a}", "{$a: $b}", "{$a: [$b]}", "{\"a\": $c}", "{(\"a\", \"b\"): $a}", "[[$a]]", "[$a, [$b]]", "{a: {b: $c}}", "{$b, $c}", "[{$a}]", "{$a, $b: {$c}}", "[$c, {$a}]", "{b: [$b], $a}"}
+	bodies := []string{"[$a, $b, $c]", "if $c == null then error(\"retry\") else [$a, $b, $c] end", "[$a, $b, $c], (select($a == null) | error(\"late\"))"}
+	var out []string
+	for i, p1 := range pats {
+		for j, p2 := range pats {
+			for k, b := range bodies {
+				if !full && (i*7+j*3+k)%3 != 0 {
+					continue
+				}
+				out = append(out, "[.[] as "+p1+" ?// "+p2+" | "+b+"]")
+				out = append(out, "[.[] | . as "+p1+" ?// "+p2+" ?// $c | "+b+"]?")
+				if full || (i+j+k)%4 == 0 {
+					p3 := pats[(i*5+j*11+k)%len(pats)]
+					out = append(out, "[.[] as "+p1+" ?// "+p2+" ?// "+p3+" | try ("+b+") catch \"caught\"]")
+				}
+			}
+		}
+	}
+	return out
+}
+
+var c01AltInputs = []any{
+	[]any{map[string]any{"a": 1, "b": "x"}, map[string]any{"a": 2, "b": []any{3}}, []any{4, []any{5}}, 6, nil},
+	[]any{[]any{1, 2}, map[string]any{"a": map[string]any{"b": 7}, "b": map[string]any{"c": 8}}, []any{[]any{9}}, "s", map[string]any{"a": "b", "b": []any{1}}},
+	[]any{map[string]any{"a": "a", "b": []any{"z"}, "c": 1}, []any{map[string]any{"a": 1}}, []any{}, map[string]any{}, []any{nil, map[string]any{"a": 2}}},
+}
+
 // c01Scale: programs whose depth/width is a parameter, so that mechanisms which only show beyond a size
 // (scope chains, register-file growth, fork-stack growth, block reuse in the persistent stacks) are exercised.
 func c01Scale(n int) []string {
@@ -261,6 +292,18 @@ func init() {
 			for i, src := range ex {
 				for j := 0; j < nin; j++ {
 					kC01.Do(c, c01Case{Src: src, Input: run.TV{V: small[(i*7+j*5)%len(small)]}})
+				}
+			}
+			// (a1) destructuring alternatives
+			for _, src := range c01Alt(!c.Quick()) {
+				for _, in := range c01AltInputs {
+					kC01.Do(c, c01Case{Src: src, Input: run.TV{V: in}})
+				}
+			}
+			// (a1') control-flow joins in multi-slot consumers
+			for _, src := range gen.JoinPrograms(c.N(12, 1)) {
+				for _, in := range gen.JoinInputs() {
+					kC01.Do(c, c01Case{Src: src, Input: run.TV{V: in}})
 				}
 			}
 			// (a2) scale: the same forms at depth/width 10, 70, 300 and 1500
